@@ -1,5 +1,6 @@
 (* C19 — tracked best / current states are grounded in real evaluations.  Statements only. *)
-Require Import Base StopRun Converter ConverterFacts CoreOpt Tracker Algos Driver DriverFacts CoreFacts AlgoFacts AlgoLift.
+Require Import Base PyPrims StopRun Converter ConverterFacts CoreOpt Tracker Algos Driver DriverFacts CoreFacts AlgoFacts AlgoLift.
+Require Import TrackerGen TrackerTie SourceTracker.
 
 (* one driver step (proposal + evaluation of ITS score) keeps every tracked pair among the evaluated pairs,
    for the seven single-solution optimizers, any draws, any (also non-finite) score *)
@@ -30,6 +31,29 @@ Print Assumptions C19_best_monotone.
 Theorem C19_current_monotone_greedy : forall k p s, sgt (t_score_cur k) (t_score_cur (eval2current k p s)) = false.
 Proof. exact eval2current_monotone. Qed.
 Print Assumptions C19_current_monotone_greedy.
+
+(* ---- the same, for the definitions GENERATED from /repo's source on this run (generated/TrackerGen.v) ---- *)
+(* HillClimbingOptimizer.evaluate as translated from the source refines the model's hc_evaluate, for every state
+   (aligned, finite valid lists) and every score, errors included *)
+Theorem C19_source_hc_evaluate_refines : forall g s, ginv g -> 0 <= f_n_neighbours g ->
+  rres (g_HillClimbingOptimizer_evaluate g s) (hc_evaluate (f_n_neighbours g) (abs g) s) (f_n_neighbours g).
+Proof. exact hc_evaluate_tie. Qed.
+Print Assumptions C19_source_hc_evaluate_refines.
+
+(* every state the translated tracker code can reach by (record proposal, evaluate its score) steps -- through
+   evaluate_init, HillClimbingOptimizer.evaluate, Spiral.evaluate or BaseOptimizer.evaluate, in any order, any
+   scores -- has its new / current / best pairs and its valid lists among the pairs it was given *)
+Theorem C19_source_tracker_grounded : forall n ops g, 0 <= n -> srun (g_init n) ops = Ok g ->
+  grounded (abs g) (map sop_pair ops) /\
+  length (f_positions_valid g) = length (f_scores_valid g) /\ Forall (fun s => is_finite s = true) (f_scores_valid g).
+Proof. exact source_tracker_grounded. Qed.
+Print Assumptions C19_source_tracker_grounded.
+
+Example C19_source_nonvacuous :
+  match srun (g_init 3) [SInit [1] (SFin 5); SHill [2] SNaN; SHill [4] (SFin 7); SHill [0] (SFin 1); SHill [6] SNInf] with
+  | Ok g => f_pos_best g = Some [4] /\ f_score_best g = SFin 7 /\ f_scores_valid g = [SFin 5; SFin 7; SFin 1] /\ f_nth_trial g = 5
+  | Err _ => False end.
+Proof. vm_compute. repeat split. Qed.
 
 Example C19_nonvacuous :
   let k0 := track_new_pos trk_init [1] in
